@@ -305,3 +305,9 @@ mod test_cli {
     error("completions --shell fish");
   }
 }
+
+/// verification hooks: the real printers of the CLI, driven with caller-chosen inputs
+#[cfg(feature = "verif-hooks")]
+pub mod verif_hooks {
+  pub use crate::print::verif_hooks::*;
+}
